@@ -181,6 +181,8 @@ type Knobs struct {
 	CacheCap     int  `json:"cache_cap"`               // 0 = default (10000)
 	LRUReverse   bool `json:"lru_reverse,omitempty"`   // order in which a flush leaves its pages in the recency list
 	ForceFlush   bool `json:"force_flush,omitempty"`   // enforce C16's precondition: tick at a boundary when dirty pages near capacity
+	FlushMargin  int  `json:"flush_margin,omitempty"`  // ... i.e. when dirty >= capacity - margin (0 = 10)
+	CacheOnly    bool `json:"cache_only,omitempty"`    // C15 with ticks withheld: only the cache monitor and O-live are evaluated
 	CheckEvery   int  `json:"check_every,omitempty"`   // full contents check every k statements (0/1 = every statement)
 	TreeEvery    int  `json:"tree_every,omitempty"`    // tree walk every k statements (0 = never)
 	NoAutoRecheck bool `json:"-"`
